@@ -263,7 +263,7 @@ func (g *gen) fd(p wasiabi.Param, idx int) uint64 {
 	return uint64(uint32(pick(g.t, g.l("fd-wellformed"), cands)))
 }
 
-func (g *gen) path() string {
+func (g *gen) path(param string) string {
 	var s string
 	switch {
 	case g.hostile("path"):
@@ -271,14 +271,25 @@ func (g *gen) path() string {
 		s = pick(g.t, g.l("path"), pathsWeird)
 	default:
 		var set []string
-		switch g.fn.Name {
-		case "path_create_directory", "path_symlink", "path_link":
+		switch g.fn.Name + ":" + param {
+		case "path_link:old_path":
+			set = []string{"f0", "f1", "d0/g", "big/e03", "l0"}
+		case "path_link:new_path", "path_symlink:new_path":
+			set = append(append(set, pathsNew...), "f1")
+		case "path_rename:old_path":
+			set = []string{"f0", "f1", "d0/g", "d0/sub", "big/e03", "l0", "d0"}
+		case "path_rename:new_path":
+			set = append(append(set, pathsNew...), "f1", "d0/g", "big")
+		}
+		switch {
+		case set != nil:
+		case g.fn.Name == "path_create_directory" || g.fn.Name == "path_symlink":
 			set = append(append(set, pathsNew...), pathsDir...)
-		case "path_remove_directory":
+		case g.fn.Name == "path_remove_directory":
 			set = append(append(set, "d0/sub"), pathsDir...)
-		case "path_readlink":
+		case g.fn.Name == "path_readlink":
 			set = append(append(set, "l0", "l0", "l0", "l0"), pathsFile...)
-		case "path_open", "path_rename":
+		case g.fn.Name == "path_open":
 			set = append(append(append(append(set, pathsFile...), pathsDir...), pathsNew...), pathsLink...)
 		default:
 			set = append(append(append(set, pathsFile...), pathsDir...), pathsLink...)
@@ -437,7 +448,7 @@ func genCall(t *rapid.T, w *world, fn *wasiabi.Func, info map[int32]fdInfo, c *C
 			args[i], args[p.Pair] = ptr, l
 		case wasiabi.PtrPath:
 			done[p.Pair] = true
-			s := g.path()
+			s := g.path(p.Name)
 			ptr := g.place(p.Name, []byte(s))
 			l := uint64(len(s))
 			if g.hostile("pathlen") {
